@@ -12,6 +12,7 @@ import (
 	"os"
 	"runtime/debug"
 	"sort"
+	"sync"
 	"testing"
 	"time"
 
@@ -334,6 +335,7 @@ type verifCall struct {
 
 type verifProxy struct {
 	storage.Store
+	mu      sync.Mutex // guards calls/counters when several chain goroutines use the store
 	calls   []verifCall
 	cutAt   int  // index of the call to cut at (-1: never)
 	before  bool // stop before performing the call (else right after it)
@@ -351,8 +353,10 @@ func (p *verifProxy) enter(method, note string) int {
 	if p.stopped {
 		panic(verifCrash{at: -1, method: method})
 	}
+	p.mu.Lock()
 	idx := len(p.calls)
 	p.calls = append(p.calls, verifCall{Index: idx, Method: method, Note: note})
+	p.mu.Unlock()
 	if p.onCall != nil && !p.inHook {
 		p.inHook = true
 		p.onCall(idx, method, true)
